@@ -15,7 +15,7 @@
    plane count of the merged image produced by PSDImage.save() (C17). *)
 From PsdV Require Import Base.Prelude Psd.Codec Psd.Model Psd.Proofs Psd.Walk Psd.Layout Psd.WalkProofs
   Psd.Leaf Psd.LeafProofs Psd.Descriptor Psd.DescriptorProofs Psd.Effects Psd.EffectsProofs
-  Psd.Patterns Psd.PatternsProofs Psd.Struct Psd.Adjust Psd.AdjustProofs Psd.Vector Psd.VectorProofs Psd.Linked Psd.LinkedProofs Psd.FilterFx Psd.FilterFxProofs Psd.Rsrc Psd.RsrcProofs Psd.Slices Psd.SlicesProofs.
+  Psd.Patterns Psd.PatternsProofs Psd.Struct Psd.Adjust Psd.AdjustProofs Psd.Vector Psd.VectorProofs Psd.Linked Psd.LinkedProofs Psd.FilterFx Psd.FilterFxProofs Psd.Rsrc Psd.RsrcProofs Psd.Slices Psd.SlicesProofs Psd.Misc Psd.MiscProofs Psd.Meta Psd.MetaProofs.
 From Coq Require Import ZArith List Bool Lia.
 Import ListNotations.
 Open Scope Z_scope.
@@ -110,12 +110,17 @@ Theorem written_truthful_payloads :
   (forall enc_s t pad l, wtruth (write_linked enc_s t pad l)) /\ (forall enc_s t l, wtruth (write_linked_layers enc_s t l)) /\
   (forall c, wtruth (write_fchannel c)) /\ (forall x, wtruth (write_fextra x)) /\
   (forall enc_s e, wtruth (write_feffect enc_s e)) /\ (forall enc_s v l, wtruth (write_feffects enc_s v l)) /\
-  (forall enc_s a, wtruth (write_rsrc enc_s a)) /\ (forall t x, wtruth (write_slice6 t x)) /\ (forall t x, wtruth (write_slices t x)).
+  (forall enc_s a, wtruth (write_rsrc enc_s a)) /\ (forall t x, wtruth (write_slice6 t x)) /\ (forall t x, wtruth (write_slices t x)) /\
+  (forall cid vals op fl, wtruth (write_user_mask cid vals op fl)) /\ (forall t pad kind version b, wtruth (write_sold t pad kind version b)) /\
+  (forall enc_s t pad x, wtruth (write_placed enc_s t pad x)) /\ (forall t pad x, wtruth (write_typetool t pad x)) /\
+  (forall pad l, wtruth (write_pixel_sources pad l)) /\ (forall t l, wtruth (write_msettings t l)) /\
+  (forall enc_s major minor l, wtruth (write_annotations enc_s major minor l)).
 Proof.
   split; [exact wtruth_leaf|]. split; [exact wtruth_dval|]. split; [exact wtruth_dblock|].
   split; [exact wtruth_effect|]. split; [exact wtruth_effects|]. split; [exact wtruth_pattern|]. split; [exact wtruth_patterns|].
   split; [exact wtruth_adj|]. split; [exact wtruth_color_lookup|]. split; [exact wtruth_prec|]. split; [exact wtruth_vmask|]. split; [exact wtruth_vscg|]. split; [exact wtruth_linked|]. split; [exact wtruth_linked_layers|]. split; [exact wtruth_fchannel|]. split; [exact wtruth_fextra|].
-  split; [exact wtruth_feffect|]. split; [exact wtruth_feffects|]. split; [exact wtruth_rsrc|]. split; [exact wtruth_slice6|exact wtruth_slices].
+  split; [exact wtruth_feffect|]. split; [exact wtruth_feffects|]. split; [exact wtruth_rsrc|]. split; [exact wtruth_slice6|]. split; [exact wtruth_slices|]. split; [exact wtruth_user_mask|]. split; [exact wtruth_sold|].
+  split; [exact wtruth_placed|]. split; [exact wtruth_typetool|]. split; [exact wtruth_pixel_sources|]. split; [exact wtruth_msettings|exact wtruth_annotations].
 Qed.
 Print Assumptions written_truthful_payloads.
 
